@@ -319,6 +319,18 @@ func extractC02(c *Ctx) error {
 		}
 	}
 
+	// executed-batch claims: refused at or after the batch timeout, at vote time (msg server) and in the handler
+	apc := FindFunc(mf, "", "additionalPatchChecks")
+	kf, err := c.Parse("x/skyway/keeper/batch.go")
+	if err != nil {
+		return err
+	}
+	obe := FindFunc(kf, "Keeper", "OutgoingTxBatchExecuted")
+	if apc == nil || obe == nil || !strings.Contains(c.Src(apc.Body), "if b.BatchTimeout <= msg.EthBlockHeight {") ||
+		!strings.Contains(c.Src(obe.Body), "if b.BatchTimeout <= claim.EthBlockHeight {") {
+		return fmt.Errorf("additionalPatchChecks / OutgoingTxBatchExecuted: `b.BatchTimeout <= …EthBlockHeight` refusal not recognised")
+	}
+
 	c.P("(* x/skyway/types/genesis.go: AttestationVotesPowerThreshold = %s;", thr)
 	c.P("   x/skyway/keeper/attestation.go TryAttestation: requiredPower = Threshold*total quo %s, fires when attestationPower.%s(requiredPower) *)", den, cmp)
 	c.P("Definition threshold_num : Z := %s.", num)
